@@ -545,7 +545,7 @@ Proof.
 Qed.
 
 Lemma cleanup_loop_gz : forall files q fl idx (pl ar : cdir) o, quiet q -> hdir c (wfs q) pl ar o -> ok_entries files pl ar ->
-  exists q', cleanup_loop (fw q fl) (List.map (ename c) files) idx ll total
+  exists q', cleanup_loop (fw q fl) (List.map (ename c) files) idx ll total None
              = (snd (fst (g_loop files idx ll total pl ar fl)), fw q' (snd (g_loop files idx ll total pl ar fl)))
     /\ same_env q q' /\ keeps (wfs q) (wfs q')
     /\ hdir c (wfs q') (fst (fst (fst (g_loop files idx ll total pl ar fl)))) (snd (fst (fst (g_loop files idx ll total pl ar fl)))) o.
@@ -657,7 +657,7 @@ Qed.
 
 (* ---- one cleanup ---- *)
 Lemma cleanup_impl_klim k' w : klim k' = Some (ll, cl) ->
-  cleanup_impl c w k' IFNum false =
+  cleanup_impl c w k' IFNum None =
   (let '(t, w1) := tick w in
    if t then (Err, w1) else
    match list_log_gz (woff w1) (c_spec c) (fixed_of c w1) (wfs w1) IFNum with
@@ -665,7 +665,7 @@ Lemma cleanup_impl_klim k' w : klim k' = Some (ll, cl) ->
    | Some files =>
      let '(ok0, w1', files') := remove_redundant w1 (redundant_gz files) files in
      if negb ok0 then (Err, w1') else
-     let '(ok, w2) := cleanup_loop w1' files' 0 ll (ll + cl) in ((if ok then Ok tt else Err), w2)
+     let '(ok, w2) := cleanup_loop w1' files' 0 ll (ll + cl) None in ((if ok then Ok tt else Err), w2)
    end).
 Proof. intros H. destruct k'; cbn [klim] in H; try discriminate; injection H as <- <-; reflexivity. Qed.
 
@@ -707,7 +707,7 @@ Proof.
 Qed.
 
 Lemma cleanup_impl_gz q fl (pl ar : cdir) o : quiet q -> hdir c (wfs q) pl ar o ->
-  exists q', cleanup_impl c (fw q fl) k IFNum false
+  exists q', cleanup_impl c (fw q fl) k IFNum None
              = ((if snd (fst (g_cleanup ll total pl ar fl)) then Ok tt else Err), fw q' (snd (g_cleanup ll total pl ar fl)))
     /\ same_env q q' /\ keeps (wfs q) (wfs q')
     /\ hdir c (wfs q') (fst (fst (fst (g_cleanup ll total pl ar fl)))) (snd (fst (fst (g_cleanup ll total pl ar fl)))) o.
@@ -741,7 +741,7 @@ Lemma mount_next_g_unfold w idx cur wr : wpend wr = [] -> (m <? cur)%N = true ->
   | (Ok idx', w') =>
     match open_log_file c w' (Some cur_infix) with
     | (Ok (wr', path'), w2) =>
-      let '(rc, w4) := cleanup_impl c w2 k IFNum false in
+      let '(rc, w4) := cleanup_impl c w2 k IFNum None in
       (match rc with Ok _ => Ok tt | Err => Err | Panic => Panic end, w4,
        Active (Some (mk_rsk k (NSNumR idx') (RSize m 0))) wr' path')
     | (Err, w2) => (Err, w2, actg idx' cur wr)
@@ -757,7 +757,7 @@ Proof.
   destruct (open_log_file c w' (Some cur_infix)) as [[[wr' path']| |] w2]; try reflexivity.
   rewrite w_flush_nop by exact Hp. cbv beta iota zeta. rewrite w_drop_nop by reflexivity.
   unfold cleanup_or_queue. cbn [reset_size_and_date ns_filter ns_writes_direct].
-  destruct (cleanup_impl c w2 k IFNum false) as [rc w4]. reflexivity.
+  destruct (cleanup_impl c w2 k IFNum None) as [rc w4]. reflexivity.
 Qed.
 
 Lemma mount_next_g_idle w idx cur wr : (m <? cur)%N = false -> mount_next c w (actg idx cur wr) false = (Ok tt, w, actg idx cur wr).
@@ -1054,7 +1054,7 @@ Lemma init_tail_gw B q1 fl2 (pl1 ar : cdir) (created1 : bool) (idx1 : nat) :
       bind (open_log_file c (fw q1 fl2) (Some cur_infix)) (fun wp w2 =>
         let '(wr, path) := wp in
         bind (roll_new w2 (CSize m) (c_append c) path) (fun roll w3 =>
-        bind (cleanup_impl c w3 k IFNum false) (fun _ w4 =>
+        bind (cleanup_impl c w3 k IFNum None) (fun _ w4 =>
         (Ok (Active (Some {| rs_naming := NSNumR (N.of_nat idx1); rs_roll := roll; rs_cleanup := k; rs_bg := c_bg c |}) wr path),
          if c_bg c then set_acts w4 0 else w4))))
       = (Err, fw q' fl') /\ same_env q1 q' /\ DG q' pl' ar' cr /\ (N.of_nat (g_next pl' ar' + B) <= u32_max)%N
@@ -1063,7 +1063,7 @@ Lemma init_tail_gw B q1 fl2 (pl1 ar : cdir) (created1 : bool) (idx1 : nat) :
       bind (open_log_file c (fw q1 fl2) (Some cur_infix)) (fun wp w2 =>
         let '(wr, path) := wp in
         bind (roll_new w2 (CSize m) (c_append c) path) (fun roll w3 =>
-        bind (cleanup_impl c w3 k IFNum false) (fun _ w4 =>
+        bind (cleanup_impl c w3 k IFNum None) (fun _ w4 =>
         (Ok (Active (Some {| rs_naming := NSNumR (N.of_nat idx1); rs_roll := roll; rs_cleanup := k; rs_bg := c_bg c |}) wr path),
          if c_bg c then set_acts w4 0 else w4))))
       = (Ok (actg (N.of_nat idx') 0 wr), fw q' fl') /\ same_env q1 q' /\ GA false q' wr pl' ar' idx' []
@@ -1115,7 +1115,7 @@ Lemma initialize_unfold_g k' w : klim k' = Some (ll, cl) -> c_rot c = Some (CSiz
     bind (open_log_file c w1 (Some infix)) (fun wp w2 =>
     let '(wr, path) := wp in
     bind (roll_new w2 (CSize m) (c_append c) path) (fun roll w3 =>
-    bind (cleanup_impl c w3 k' (ns_filter ns) false) (fun _ w4 =>
+    bind (cleanup_impl c w3 k' (ns_filter ns) None) (fun _ w4 =>
     (Ok (Active (Some {| rs_naming := ns; rs_roll := roll; rs_cleanup := k'; rs_bg := c_bg c |}) wr path),
      if c_bg c then set_acts w4 0 else w4))))).
 Proof. intros H1 H2. unfold initialize. rewrite H2. destruct k'; [discriminate H1 | reflexivity | reflexivity | reflexivity]. Qed.
